@@ -2,7 +2,8 @@
 //! reader threads of a vecdb vector to chosen pause points (taps under `cfg(anydb_verif)`), so that
 //! a schedule — a list of "let thread T run to its next stop" tokens — is replayed exactly.
 //!
-//! I line:  fmt=<raw|pco|lz4> lay=<last|blk|hole|adj> pad=<0|1> vf=<0|1> st=<0|1> g=<c|f>
+//! I line:  fmt=<raw|rawn|pco|lz4> (rawn = raw format with an element type whose serialised form is NOT its memory
+//!          layout, so that write() and the readers take the per-value branches) lay=<last|blk|hole|adj> pad=<0|1> vf=<0|1> st=<0|1> g=<c|f>
 //!          pre=<it>[+<it>…] w=<it>[,<it>…] r=<op>[;<op>…] (one per reader) h=<hints> s=<tok>,<tok>,…
 //!   items: <n> = push n values to the vector `a` the readers read, then write() it; b<n> = the same on a SECOND
 //!          vector `b` of the same database owned by the writer thread (it exists iff some item names it; it is
@@ -270,17 +271,52 @@ fn pad_to_file_end(db: &Database, keep_free: usize, tag: &str) {
     }
 }
 
-trait VecKind: StoredVec<I = usize, T = u64> + AnyStoredVec + Send + 'static
+/// Element of the format `rawn`: a u64 whose `Bytes` form is big-endian, IS_NATIVE_LAYOUT = false (the trait default):
+/// the raw vector serialises value by value (raw write(): any_stored_vec.rs:100-105) instead of one memcpy.
+#[derive(Debug, Clone, Copy, PartialEq)]
+#[repr(transparent)]
+pub struct Be8(u64);
+impl vecdb::Bytes for Be8 {
+    type Array = [u8; 8];
+    fn to_bytes(&self) -> [u8; 8] {
+        self.0.to_be_bytes()
+    }
+    fn from_bytes(b: &[u8]) -> vecdb::Result<Self> {
+        let a: [u8; 8] = b.try_into().map_err(|_| vecdb::Error::WrongLength { expected: 8, received: b.len() })?;
+        Ok(Be8(u64::from_be_bytes(a)))
+    }
+}
+
+/// every comparison of the engine is made in u64: `of` / `val` convert to and from the element type
+trait VecKind: StoredVec<I = usize> + AnyStoredVec + Send + 'static
 where
     <Self as StoredVec>::ReadOnly: Send + Sync,
 {
     const COMP: bool;
+    fn of(v: u64) -> Self::T;
+    fn val(t: &Self::T) -> u64;
     fn vec_reader_get(_ro: &Self::ReadOnly, _idx: &str) -> Option<(usize, usize, Option<u64>)> {
         None
     }
 }
+impl VecKind for BytesVec<usize, Be8> {
+    const COMP: bool = false;
+    fn of(v: u64) -> Be8 { Be8(v) }
+    fn val(t: &Be8) -> u64 { t.0 }
+    fn vec_reader_get(ro: &Self::ReadOnly, idx: &str) -> Option<(usize, usize, Option<u64>)> {
+        let r = ro.reader();
+        let l = r.len();
+        if l == 0 {
+            return Some((0, 0, None));
+        }
+        let i = idx_of(idx, l);
+        Some((l, i, r.try_get(i).map(|v| v.0)))
+    }
+}
 impl VecKind for BytesVec<usize, u64> {
     const COMP: bool = false;
+    fn of(v: u64) -> u64 { v }
+    fn val(t: &u64) -> u64 { *t }
     fn vec_reader_get(ro: &Self::ReadOnly, idx: &str) -> Option<(usize, usize, Option<u64>)> {
         let r = ro.reader();
         let l = r.len();
@@ -293,9 +329,13 @@ impl VecKind for BytesVec<usize, u64> {
 }
 impl VecKind for PcoVec<usize, u64> {
     const COMP: bool = true;
+    fn of(v: u64) -> u64 { v }
+    fn val(t: &u64) -> u64 { *t }
 }
 impl VecKind for LZ4Vec<usize, u64> {
     const COMP: bool = true;
+    fn of(v: u64) -> u64 { v }
+    fn val(t: &u64) -> u64 { *t }
 }
 
 fn idx_of(spec: &str, l: usize) -> usize {
@@ -381,13 +421,13 @@ where
         if it.b {
             let vb = vecb.as_mut().unwrap();
             for _ in 0..it.n {
-                vb.push(valb(c.vf, nextb));
+                vb.push(V::of(valb(c.vf, nextb)));
                 nextb += 1;
             }
             vb.write().unwrap();
         } else {
             for _ in 0..it.n {
-                vec.push(val(c.vf, next));
+                vec.push(V::of(val(c.vf, next)));
                 next += 1;
             }
             vec.write().unwrap();
@@ -429,10 +469,10 @@ where
         let stored = v.stored_len();
         for _ in 0..n {
             if it.b {
-                v.push(valb(c.vf, nextb));
+                v.push(V::of(valb(c.vf, nextb)));
                 nextb += 1;
             } else {
-                v.push(val(c.vf, next));
+                v.push(V::of(val(c.vf, next)));
                 next += 1;
             }
         }
@@ -508,7 +548,7 @@ where
             }
             let i = idx_of(arg, l);
             meta.set((l, i, 1));
-            let got: Vec<u64> = ro.collect_one_at(i).into_iter().collect();
+            let got: Vec<u64> = ro.collect_one_at(i).iter().map(V::val).collect();
             OpRes { len_seen: l, idx: i, want: 1, status: check_vals(vf, i, 1, &got), got }
         }
         "rng" | "fold" => {
@@ -520,11 +560,11 @@ where
             let k: usize = arg.parse().unwrap_or(1).max(1).min(l);
             let from = l - k;
             meta.set((l, from, k));
-            let got = if kind == "rng" {
-                ro.collect_range_at(from, l)
+            let got: Vec<u64> = if kind == "rng" {
+                ro.collect_range_at(from, l).iter().map(V::val).collect()
             } else {
                 ro.fold_range_at(from, l, Vec::new(), |mut a: Vec<u64>, v| {
-                    a.push(v);
+                    a.push(V::val(&v));
                     a
                 })
             };
@@ -549,7 +589,7 @@ where
             }
             let i = idx_of(arg, l);
             meta.set((l, i, 1));
-            let got: Vec<u64> = c.get(i).into_iter().collect();
+            let got: Vec<u64> = c.get(i).iter().map(V::val).collect();
             OpRes { len_seen: l, idx: i, want: 1, status: check_vals(vf, i, 1, &got), got }
         }
         _ => OpRes { len_seen: 0, idx: 0, want: 0, got: vec![], status: "empty".into() },
@@ -636,10 +676,10 @@ where
                     let v: &mut V = if it.b { vecb.as_mut().unwrap() } else { &mut vec };
                     for _ in 0..it.n {
                         if it.b {
-                            v.push(valb(vf, nextb));
+                            v.push(V::of(valb(vf, nextb)));
                             nextb += 1;
                         } else {
-                            v.push(val(vf, next));
+                            v.push(V::of(val(vf, next)));
                             next += 1;
                         }
                     }
@@ -871,7 +911,7 @@ where
         let l = ro.len();
         let all = catch_unwind(AssertUnwindSafe(|| ro.collect_range_at(0, l))).unwrap_or_default();
         let total: usize = sum_a(&c.pre) + sum_a(&c.w);
-        let okv = all.len() == l && all.iter().enumerate().all(|(i, v)| *v == val(c.vf, i));
+        let okv = all.len() == l && all.iter().enumerate().all(|(i, v)| V::val(v) == val(c.vf, i));
         let (rs, rl, rr) = region_tuple(&vec);
         out.lines.push(format!("final len={l} values={} region={rs},{rl},{rr}", if okv { "ok" } else { "bad" }));
         if !okv || (l != total && !aborted) {
@@ -882,7 +922,7 @@ where
         let ro = vb.read_only_clone();
         let l = ro.len();
         let all = catch_unwind(AssertUnwindSafe(|| ro.collect_range_at(0, l))).unwrap_or_default();
-        let okv = all.len() == l && all.iter().enumerate().all(|(i, v)| *v == valb(c.vf, i));
+        let okv = all.len() == l && all.iter().enumerate().all(|(i, v)| V::val(v) == valb(c.vf, i));
         let (rs, rl, rr) = region_tuple(&vb);
         out.lines.push(format!("finalb len={l} values={} region={rs},{rl},{rr}", if okv { "ok" } else { "bad" }));
     }
@@ -989,6 +1029,11 @@ fn regimes() -> Vec<(Cfg, Option<Vec<ReaderSet>>)> {
         // (short reads: the model decodes a whole page per element read)
         mk2("lz4", "blk", 1, &[ia(2048), ib(100), ia(2048), ib(1948)], &[ia(4096), ib(2048)],
             &[&[("get", "first")], &[("fold", "3")]]),
+        // raw format with a NON-native element (per-value serialisation in write(), per-value reads): the appending regimes
+        mk("rawn", "blk", false, 0, &[100], 50),      // fits in the reserve
+        mk("rawn", "last", false, 1, &[500], 100),    // in-place extension of the last region
+        mk("rawn", "blk", false, 0, &[500], 100),     // relocation to the end of the layout
+        mk("rawn", "hole", false, 1, &[500], 100),    // relocation into a hole
     ]
 }
 
@@ -1013,6 +1058,7 @@ fn with_hints(c: &Cfg) -> Cfg {
     let mut c = c.clone();
     c.hints = match c.fmt.as_str() {
         "raw" => hints_for::<BytesVec<usize, u64>>(&c),
+        "rawn" => hints_for::<BytesVec<usize, Be8>>(&c),
         "pco" => hints_for::<PcoVec<usize, u64>>(&c),
         _ => hints_for::<LZ4Vec<usize, u64>>(&c),
     };
@@ -1022,6 +1068,7 @@ fn with_hints(c: &Cfg) -> Cfg {
 fn run_any(c: &Cfg) -> CaseOut {
     match c.fmt.as_str() {
         "raw" => run_case::<BytesVec<usize, u64>>(c),
+        "rawn" => run_case::<BytesVec<usize, Be8>>(c),
         "pco" => run_case::<PcoVec<usize, u64>>(c),
         _ => run_case::<LZ4Vec<usize, u64>>(c),
     }
@@ -1160,10 +1207,11 @@ pub fn run(args: &[String]) -> i32 {
             let directed = own_sets.is_some();
             let sets: &Vec<ReaderSet> = own_sets.as_ref().unwrap_or(&reader_sets);
             for (si, rs) in sets.iter().enumerate() {
-                if base.fmt != "raw" && rs.iter().any(|r| r.iter().any(|(k, _)| k == "vr")) {
+                let is_raw = base.fmt.starts_with("raw");
+                if !is_raw && rs.iter().any(|r| r.iter().any(|(k, _)| k == "vr")) {
                     continue;
                 }
-                if base.fmt == "raw" && si == 3 && !directed { continue; }
+                if is_raw && si == 3 && !directed { continue; }
                 if only_regime.is_some_and(|r| r != ri) { continue; }
                 // each (regime, reader pair) configuration is enumerated by exactly one shard
                 cfg_no += 1;
@@ -1198,11 +1246,12 @@ pub fn run(args: &[String]) -> i32 {
     let mut j = 0;
     while n < budget && mode != "exhaustive" {
         j += 1;
-        let fmt = *rng.pick(&["raw", "pco", "pco", "lz4"]);
-        let lay = *rng.pick(if fmt == "raw" { &["last", "blk", "hole", "adj"][..] } else { &["blk", "hole", "adj", "last"][..] });
-        let mut c = Cfg { fmt: fmt.into(), lay: lay.into(), pad: rng.chance(1, 5), vf: rng.below(2) as u8, st: fmt == "raw" && rng.chance(1, 4), fine: rng.chance(1, 2),
+        let fmt = *rng.pick(&["raw", "rawn", "pco", "pco", "lz4"]);
+        let is_raw = fmt.starts_with("raw");
+        let lay = *rng.pick(if is_raw { &["last", "blk", "hole", "adj"][..] } else { &["blk", "hole", "adj", "last"][..] });
+        let mut c = Cfg { fmt: fmt.into(), lay: lay.into(), pad: rng.chance(1, 5), vf: rng.below(2) as u8, st: is_raw && rng.chance(1, 4), fine: rng.chance(1, 2),
                           pre: vec![], w: vec![], hasb: false, readers: vec![], hints: String::new(), sched: vec![] };
-        let sizes: &[u64] = if fmt == "raw" { &[1, 7, 100, 400, 508, 600, 3000] } else { &[1, 50, 400, 1000, 2047, 2048, 2100, 4500] };
+        let sizes: &[u64] = if is_raw { &[1, 7, 100, 400, 508, 600, 3000] } else { &[1, 50, 400, 1000, 2047, 2048, 2100, 4500] };
         // at least one stored element: the stop sequence of a reader operation must not depend on the schedule (len 0 = early return)
         for _ in 0..rng.range(1, 2) { c.pre.push(ia(*rng.pick(sizes) as usize)); }
         for _ in 0..rng.range(1, 3) { c.w.push(ia(*rng.pick(sizes) as usize)); }
@@ -1218,7 +1267,7 @@ pub fn run(args: &[String]) -> i32 {
                 c.w.insert(at, ib(*rng.pick(sizes) as usize));
             }
         }
-        let kinds: &[&str] = if fmt == "raw" { &["get", "rng", "fold", "vr", "cur", "len"] } else { &["get", "rng", "fold", "cur", "len"] };
+        let kinds: &[&str] = if is_raw { &["get", "rng", "fold", "vr", "cur", "len"] } else { &["get", "rng", "fold", "cur", "len"] };
         for _ in 0..rng.range(1, 3) {
             let mut ops = vec![];
             for _ in 0..rng.range(1, 3) {
